@@ -23,6 +23,7 @@ is therefore `commute_sound_partial`, which excludes that pair and nothing else.
 import DafRel.Lemmas.Commute
 import DafRel.Bridge.Tables
 import DafRel.Bridge.Ops
+import DafRel.Bridge.RelOps
 
 namespace DafRel.Props.C04
 
@@ -97,6 +98,13 @@ theorem bridge_commute_methods (cur : UOp) (tcols ccols : Cols) :
    fun p => Bridge.Selection_commute_eq p cur tcols ccols,
    fun s e => Bridge.Slice_commute_eq s e cur tcols ccols,
    fun ts => Bridge.Sort_commute_eq ts cur tcols ccols⟩
+
+/-- `PartialJoin.commute` and `PartialJoin.columns_required` are not covered by the soundness theorem,
+but the model of them that the correspondence check and C03 rely on is the current source's. -/
+theorem bridge_partial_join (p : PJoin) (cur : UOp) (tcols ccols : Cols) :
+    Gen.PartialJoin_commute p cur tcols ccols = p.commute cur tcols ccols ∧
+      Gen.PartialJoin_columns_required p = p.columnsRequired :=
+  ⟨Bridge.PartialJoin_commute_eq p cur tcols ccols, Bridge.PartialJoin_columns_required_eq p⟩
 
 /-! ### Non-vacuity: a concrete pair meeting the hypotheses, with a non-trivial report -/
 
